@@ -85,6 +85,11 @@ def check_states(env, acc, maxlen):
                 acc.violation("equal_states_hash_differently", case, None)
             if (S[a] + S[b]).s != occ[a] + occ[b]:
                 acc.violation("concatenation", case, None)
+            # augmented assignment makes a new state; the object other names still refer to does not change
+            x = lw.State(list(occ[a])); alias = x; h0 = hash(x)
+            x += S[b]
+            if x.s != occ[a] + occ[b] or alias.s != occ[a] or hash(alias) != h0 or (occ[b] and x is alias) or S[b].s != occ[b]:
+                acc.violation("augmented_concatenation_mutates", case, {"alias_now": alias.s})
             if len(occ[a]) == len(occ[b]):
                 m = S[a].merge(S[b])
                 if m.s != [x + y for x, y in zip(occ[a], occ[b])] or m != S[b].merge(S[a]):
